@@ -112,13 +112,13 @@ func isOneOf(r rune, rr ...rune) bool {
 }
 
 // Package writes a new archlinux package to the given writer using the given info.
-func (ArchLinux) Package(info *nfpm.Info, w io.Writer) error {
+func (ArchLinux) Package(info *nfpm.Info, w io.Writer) (err error) {
 	if info.Platform != "linux" {
 		return fmt.Errorf("invalid platform: %s", info.Platform)
 	}
 	info = ensureValidArch(info)
 
-	err := nfpm.PrepareForPackager(info, packagerName)
+	err = nfpm.PrepareForPackager(info, packagerName)
 	if err != nil {
 		return err
 	}
@@ -131,10 +131,20 @@ func (ArchLinux) Package(info *nfpm.Info, w io.Writer) error {
 	if err != nil {
 		return err
 	}
-	defer zw.Close()
+	// the archive is only complete once both writers are closed: their
+	// errors (e.g. a failing destination writer) must not be dropped
+	defer func() {
+		if cerr := zw.Close(); cerr != nil && err == nil {
+			err = fmt.Errorf("closing zstd writer: %w", cerr)
+		}
+	}()
 
 	tw := tar.NewWriter(zw)
-	defer tw.Close()
+	defer func() {
+		if cerr := tw.Close(); cerr != nil && err == nil {
+			err = fmt.Errorf("closing tar writer: %w", cerr)
+		}
+	}()
 
 	entries, totalSize, err := createFilesInTar(info, tw)
 	if err != nil {
